@@ -305,9 +305,7 @@ Proof.
         * eexists _, _. split; [reflexivity|]. repeat split; try lia.
       + eexists _, _. split; [reflexivity|]. repeat split; try lia. }
   destruct Hal as (o & e & Eal & Eo & He1 & He2 & He3). rewrite Eal. cbn [s_start s_endalloc].
-  assert (Hblk : block_of o = B /\ allocation_size o = A).
-  { apply block_same; fold B; fold A; lia. }
-  destruct Hblk as [Hbo Hao].
+  destruct (block_same (r_off r) o) as [Hao Hbo]; [fold B; lia|fold B; fold A; lia|]. fold B in Hbo. fold A in Hao.
   split; [|split; lia].
   set (Nw := {| s_start := o; s_endalloc := e; s_len := 0; s_data := [] |}).
   assert (HPend : Pend fo Nw) by (unfold Pend, bend, Nw; cbn [s_start s_endalloc]; rewrite Hbo, Hao; lia).
@@ -322,11 +320,272 @@ Proof.
       assert (Hnxb : s_start nx = block_of (s_start nx)) by (destruct A6 as [A6|[_ A6]]; [lia|exact A6]).
       pose proof (block_before (r_off r) (s_start nx) ltac:(lia)) as Hbb. fold B in Hbb. fold A in Hbb.
       unfold okslot, Nw; cbn [s_start s_endalloc]. repeat split; auto; try lia.
-      destruct (N.eq_dec (s_start nx) e); [left; assumption|right; split; [exact HPend|exact Hnxb]].
-  - left. contradiction.
   - (* an empty slot holds nothing *)
     intros p. rewrite <- (Lci p).
     assert (Hl1 : Forall lenok pre) by (eapply chain_pre_lenok; eauto).
     rewrite !slots_get_app by exact Hl1. destruct (slots_get pre p); [reflexivity|].
     cbn [slots_get]. unfold s_end, Nw; cbn [s_start s_len]. dd; try reflexivity; lia.
+Qed.
+
+Lemma with_alloc_ok : forall fuel pre post r filled sl' r' idx' f' o', LI pre post r ->
+  (N.to_nat (r_len r) <= fuel)%nat ->
+  with_alloc fuel st (pre ++ post) r (length pre) filled = (sl', r', idx', f', o') ->
+  o' = false /\ exists pre', sl' = pre' ++ post /\ idx' = length pre' /\ LI pre' post r' /\ r_len r' <= r_len r
+  /\ (r_len r' = 0 \/ exists nx post', post = nx :: post' /\ s_start nx <= r_off r').
+Proof.
+  induction fuel as [|k IH]; intros pre post r filled sl' r' idx' f' o' Hli Hfuel H.
+  - cbn [with_alloc] in H. unfold r_empty in H. destruct (N.eqb_spec (r_len r) 0) as [Hz|Hz]; [|lia].
+    injection H as <- <- <- <- <-. split; [reflexivity|]. exists pre. split; [reflexivity|]. split; [reflexivity|]. split; [exact Hli|]. split; [lia|left; exact Hz].
+  - cbn [with_alloc] in H. unfold r_empty in H. destruct (N.eqb_spec (r_len r) 0) as [Hz|Hz].
+    { injection H as <- <- <- <- <-. split; [reflexivity|]. exists pre. split; [reflexivity|]. split; [reflexivity|]. split; [exact Hli|]. split; [lia|left; exact Hz]. }
+    rewrite nth_error_zip in H.
+    assert (Hstop : forall nx post', post = nx :: post' -> negb (r_off r <? s_start nx) = true ->
+              (pre ++ post, r, length pre, filled, false) = (sl', r', idx', f', o') ->
+              o' = false /\ exists pre', sl' = pre' ++ post /\ idx' = length pre' /\ LI pre' post r' /\ r_len r' <= r_len r
+              /\ (r_len r' = 0 \/ exists nx post', post = nx :: post' /\ s_start nx <= r_off r')).
+    { intros nx post' E Hs X. injection X as <- <- <- <- <-. split; [reflexivity|]. exists pre.
+      split; [reflexivity|]. split; [reflexivity|]. split; [exact Hli|]. split; [lia|]. right. exists nx, post'. split; [exact E|].
+      destruct (N.ltb_spec (r_off r) (s_start nx)); [discriminate|lia]. }
+    assert (Hnx : match post with [] => True | nx :: _ => r_off r < s_start nx end \/
+                  exists nx post', post = nx :: post' /\ negb (r_off r <? s_start nx) = true).
+    { destruct post as [|nx post']; [left; exact I|].
+      destruct (r_off r <? s_start nx) eqn:El; [left; apply N.ltb_lt; exact El|right; exists nx, post'; split; [reflexivity|rewrite El; reflexivity]]. }
+    destruct Hnx as [Hnx|(nx & post' & E & Hs)].
+    2:{ subst post. cbn [hd_error] in H. rewrite Hs in H. eapply Hstop; eauto. }
+    assert (Hns : match hd_error post with Some nx => negb (r_off r <? s_start nx) | None => false end = false).
+    { destruct post as [|nx post']; [reflexivity|]. cbn [hd_error].
+      destruct (N.ltb_spec (r_off r) (s_start nx)); [reflexivity|lia]. }
+    rewrite Hns in H.
+    destruct (alloc_step pre post r Hli Hz Hnx) as (Hli1 & Ha1 & Ha2).
+    destruct (try_write (allocate_slot st r) r) as [[[s1 r1] fo1] fl] eqn:Etw.
+    destruct (zip_step _ _ _ _ _ _ _ _ Hli1 Ha1 Etw) as (Hli2 & Hpos & Hlen).
+    rewrite insert_at_zip in H.
+    assert (Hprog : r_len r1 < r_len r).
+    { destruct Hli2 as [_ _ _ Le2 _ _ _ _ _]. destruct Hli as [_ _ _ Le _ _ _ _ _]. lia. }
+    assert (Hshape : (let '(sl2, idx2) := match fo1 with
+                        | Some x => (insert_at (S (length pre)) x (pre ++ s1 :: post), S (S (length pre)))
+                        | None => (pre ++ s1 :: post, S (length pre)) end in (sl2, idx2))
+                     = ((pre ++ s1 :: optl fo1) ++ post, length (pre ++ s1 :: optl fo1))).
+    { destruct fo1 as [x|]; cbn [optl].
+      - replace (S (length pre)) with (length (pre ++ [s1])) by (rewrite app_length; cbn; lia).
+        replace (pre ++ s1 :: post) with ((pre ++ [s1]) ++ post) by (rewrite <- app_assoc; reflexivity).
+        rewrite insert_at_zip. rewrite !app_length. cbn [length]. f_equal; [|lia].
+        rewrite <- !app_assoc. reflexivity.
+      - rewrite app_length. cbn [length]. f_equal; [|lia]. rewrite <- app_assoc. reflexivity. }
+    destruct fo1 as [x|]; cbn [optl] in *.
+    + injection Hshape as E1 E2. rewrite E1, E2 in H.
+      destruct (IH _ _ _ _ _ _ _ _ _ Hli2 ltac:(lia) H) as (Ho & pre' & Q1 & Q2 & Q3 & Q4 & Q5).
+      split; [exact Ho|]. exists pre'. split; [exact Q1|]. split; [exact Q2|]. split; [exact Q3|]. split; [lia|exact Q5].
+    + injection Hshape as E1 E2. rewrite E1, E2 in H.
+      destruct (IH _ _ _ _ _ _ _ _ _ Hli2 ltac:(lia) H) as (Ho & pre' & Q1 & Q2 & Q3 & Q4 & Q5).
+      split; [exact Ho|]. exists pre'. split; [exact Q1|]. split; [exact Q2|]. split; [exact Q3|]. split; [lia|exact Q5].
+Qed.
+
+Lemma write_loop_ok : forall fuel pre post r filled sl' idx' f' o', LI pre post r ->
+  (r_len r = 0 \/ exists s post', post = s :: post' /\ s_start s <= r_off r) ->
+  (r_len r = 0 \/ (N.to_nat (r_len r) + length post <= fuel)%nat) ->
+  write_loop fuel st (pre ++ post) r (length pre) filled = (sl', idx', f', o') ->
+  o' = false /\ exists pre' post' r', sl' = pre' ++ post' /\ idx' = length pre' /\ LI pre' post' r' /\ r_len r' = 0.
+Proof.
+  induction fuel as [|k IH]; intros pre post r filled sl' idx' f' o' Hli Hhd Hfuel H.
+  - cbn [write_loop] in H. unfold r_empty in H. destruct (N.eqb_spec (r_len r) 0) as [Hz|Hz].
+    + injection H as <- <- <- <-. split; [reflexivity|]. exists pre, post, r. split; [reflexivity|]. split; [reflexivity|]. split; auto.
+    + exfalso. destruct Hhd as [?|(s & post' & -> & _)]; [contradiction|].
+      destruct Hfuel as [?|Hf]; [contradiction|]. cbn [length] in Hf. lia.
+  - cbn [write_loop] in H. unfold r_empty in H. destruct (N.eqb_spec (r_len r) 0) as [Hz|Hz].
+    { injection H as <- <- <- <-. split; [reflexivity|]. exists pre, post, r. split; [reflexivity|]. split; [reflexivity|]. split; auto. }
+    destruct Hhd as [?|(s & post' & -> & Hs)]; [contradiction|].
+    destruct Hfuel as [?|Hf]; [contradiction|]. cbn [length] in Hf.
+    rewrite nth_error_zip in H. cbn [hd_error] in H.
+    destruct (try_write s r) as [[[s1 r1] fo1] fl] eqn:Etw.
+    destruct (zip_step _ _ _ _ _ _ _ _ Hli Hs Etw) as (Hli2 & Hpos & Hlen).
+    rewrite set_nth_zip in H.
+    assert (Hshape : (let '(sl2, idx2) := match fo1 with
+                        | Some x => (insert_at (S (length pre)) x (pre ++ s1 :: post'), S (S (length pre)))
+                        | None => (pre ++ s1 :: post', S (length pre)) end in (sl2, idx2))
+                     = ((pre ++ s1 :: optl fo1) ++ post', length (pre ++ s1 :: optl fo1))).
+    { destruct fo1 as [x|]; cbn [optl].
+      - replace (S (length pre)) with (length (pre ++ [s1])) by (rewrite app_length; cbn; lia).
+        replace (pre ++ s1 :: post') with ((pre ++ [s1]) ++ post') by (rewrite <- app_assoc; reflexivity).
+        rewrite insert_at_zip. rewrite !app_length. cbn [length]. f_equal; [|lia].
+        rewrite <- !app_assoc. reflexivity.
+      - rewrite app_length. cbn [length]. f_equal; [|lia]. rewrite <- app_assoc. reflexivity. }
+    set (pre1 := pre ++ s1 :: optl fo1) in *.
+    assert (Hcont : forall filled1,
+      (if r_len r1 =? 0 then (pre1 ++ post', length pre1, filled1, false)
+       else let '(sl3, r3, idx3, filled3, o3) := with_alloc (S k) st (pre1 ++ post') r1 (length pre1) filled1 in
+            if o3 then (sl3, idx3, filled3, true) else write_loop k st sl3 r3 idx3 filled3) = (sl', idx', f', o') ->
+      o' = false /\ exists pre' post'0 r', sl' = pre' ++ post'0 /\ idx' = length pre' /\ LI pre' post'0 r' /\ r_len r' = 0).
+    { intros filled1 X. destruct (N.eqb_spec (r_len r1) 0) as [Hz1|Hz1].
+      - injection X as <- <- <- <-. split; [reflexivity|]. exists pre1, post', r1. split; [reflexivity|]. split; [reflexivity|]. split; auto.
+      - destruct (with_alloc (S k) st (pre1 ++ post') r1 (length pre1) filled1) as [[[[sl3 r3] idx3] filled3] o3] eqn:Ewa.
+        assert (Hfa : (N.to_nat (r_len r1) <= S k)%nat) by lia.
+        destruct (with_alloc_ok _ _ _ _ _ _ _ _ _ _ Hli2 Hfa Ewa) as (Ho & pre2 & Q1 & Q2 & Q3 & Q4 & Q5).
+        subst o3 sl3 idx3.
+        eapply (IH pre2 post' r3 filled3); eauto.
+        destruct (N.eq_dec (r_len r3) 0); [left; assumption|right]. lia. }
+    destruct fo1 as [x|]; cbn [optl] in *; injection Hshape as E1 E2; rewrite E1, E2 in H; eapply Hcont; exact H.
+Qed.
+
+Lemma li_final : forall pre post r, LI pre post r -> r_len r = 0 -> reader_ok r0 -> r_off r0 + r_len r0 = rend ->
+  chain fo mr so True so (pre ++ post) /\ (forall p, slots_get (pre ++ post) p = wspec sl0 r0 p).
+Proof.
+  intros pre post r [Lpre Lpost Lrok Lend Lmr Lfo Lpos Lrd Lci] Hz Hr0 He.
+  split; [apply chain_app; split; assumption|].
+  intros p. rewrite (Lci p). unfold wspec. destruct (slots_get sl0 p); [reflexivity|].
+  destruct (N.ltb_spec p (r_off r)); [reflexivity|].
+  unfold rd_get. destruct (N.leb_spec (r_off r0) p); [|reflexivity]. symmetry. apply nth_error_None.
+  unfold reader_ok in Hr0. rewrite nlen_length in Hr0. lia.
+Qed.
+
+End Loop.
+
+(* ---- unsplit_range: merging a full slot with its neighbour in the same block ---- *)
+Lemma merge_ok : forall fo mr so P lo s nx b, chain fo mr so P lo (s :: nx :: b) ->
+  s_is_full s = true -> s_start nx = s_end s -> block_of (s_start s) = block_of (s_start nx) ->
+  let m := {| s_start := s_start s; s_endalloc := s_endalloc nx; s_len := s_len s + s_len nx; s_data := s_data s ++ s_data nx |} in
+  chain fo mr so P lo (m :: b) /\ (forall p, slots_get (m :: b) p = slots_get (s :: nx :: b) p).
+Proof.
+  intros fo mr so P lo s nx b [Hs [Hn Hb]] Hfull Hadj Hblk m. unfold s_is_full in Hfull. apply N.eqb_eq in Hfull.
+  destruct Hs as (A1 & A2 & A3 & A4 & A5 & A6 & A7 & A8). destruct Hn as (B1 & B2 & B3 & B4 & B5 & B6 & B7 & B8).
+  unfold s_end in *.
+  pose proof (block_eq_in _ _ Hblk) as Hin. pose proof (block_bounds (s_start s)).
+  destruct (block_same (s_start s) (s_start nx)) as [Hasz _]; [lia|lia|].
+  assert (Hbend : bend nx = bend s) by (unfold bend; rewrite <- Hblk, Hasz; reflexivity).
+  split.
+  - cbn [chain]. split.
+    + unfold okslot, s_end, bend, m; cbn [s_start s_endalloc s_len s_data]. unfold bend in Hbend, B5. rewrite <- Hblk, Hasz in B5.
+      repeat split; auto; try lia. rewrite !nlen_length, app_length in *. lia.
+    + eapply chain_P_impl; [|exact Hb]. unfold Pend, m. unfold bend at 2; cbn [s_start s_endalloc]. fold (bend s). rewrite <- Hbend. auto.
+  - intros p. cbn [slots_get]. unfold s_end, m; cbn [s_start s_len s_data].
+    destruct (N.leb_spec (s_start s) p); cbn [andb].
+    2:{ destruct (N.leb_spec (s_start nx) p); [lia|reflexivity]. }
+    destruct (N.ltb_spec p (s_start s + s_len s)).
+    + destruct (N.ltb_spec p (s_start s + (s_len s + s_len nx))); [|lia].
+      apply nth_error_app1. rewrite nlen_length in A3. lia.
+    + destruct (N.leb_spec (s_start nx) p); [|lia]. cbn [andb].
+      destruct (N.ltb_spec p (s_start s + (s_len s + s_len nx))); destruct (N.ltb_spec p (s_start nx + s_len nx)); try lia; [|reflexivity].
+      rewrite nth_error_app2 by (rewrite nlen_length in A3; lia). f_equal. rewrite nlen_length in A3. lia.
+Qed.
+
+Lemma unsplit_range_ok : forall k sl lo' fo mr so, chain fo mr so True so sl ->
+  chain fo mr so True so (unsplit_range sl lo' k) /\ (forall p, slots_get (unsplit_range sl lo' k) p = slots_get sl p).
+Proof.
+  induction k as [|k IH]; intros sl lo' fo mr so Hc; cbn [unsplit_range]; [split; auto|].
+  set (idx := (lo' + k)%nat).
+  destruct (nth_error sl idx) as [s|] eqn:E1; [|apply IH; exact Hc].
+  destruct (nth_error sl (S idx)) as [nx|] eqn:E2; [|apply IH; exact Hc].
+  destruct (s_is_full s && (s_start nx =? s_end s) && (block_of (s_start s) =? block_of (s_start nx))) eqn:Ec; [|apply IH; exact Hc].
+  apply andb_true_iff in Ec. destruct Ec as [Ec Ec3]. apply andb_true_iff in Ec. destruct Ec as [Ec1 Ec2].
+  apply N.eqb_eq in Ec2. apply N.eqb_eq in Ec3.
+  pose proof (split_two sl idx s nx E1 E2) as Esl.
+  set (a := firstn idx sl) in *. set (b := skipn (S (S idx)) sl) in *.
+  rewrite Esl in Hc. apply chain_app in Hc. destruct Hc as [Hpre Hc].
+  destruct (merge_ok _ _ _ _ _ _ _ _ Hc Ec1 Ec2 Ec3) as [Hm1 Hm2]. cbv zeta in Hm1, Hm2.
+  set (m := {| s_start := s_start s; s_endalloc := s_endalloc nx; s_len := s_len s + s_len nx; s_data := s_data s ++ s_data nx |}) in *.
+  assert (Hc' : chain fo mr so True so (a ++ m :: b)) by (apply chain_app; split; assumption).
+  destruct (IH (a ++ m :: b) lo' fo mr so Hc') as [I1 I2]. split; [exact I1|].
+  intros p. rewrite I2. transitivity (slots_get (a ++ s :: nx :: b) p); [|rewrite <- Esl; reflexivity].
+  assert (Hl : Forall lenok a) by (eapply chain_pre_lenok; eauto).
+  rewrite !slots_get_app by exact Hl. destruct (slots_get a p); [reflexivity|]. apply Hm2.
+Qed.
+
+(* ---- assembling Reassembler::write_reader_impl ---- *)
+Lemma find_slot_spec : forall sl off i acc,
+  match find_slot sl off i acc with
+  | Some j => (acc = Some j /\ Forall (fun x => off < s_start x) sl)
+              \/ exists pre s post, sl = pre ++ s :: post /\ j = (i + length pre)%nat /\ s_start s <= off
+  | None => acc = None /\ Forall (fun x => off < s_start x) sl
+  end.
+Proof.
+  induction sl as [|s t IH]; intros off i acc; cbn [find_slot].
+  - destruct acc; [left|]; split; auto.
+  - specialize (IH off (S i) (if s_start s <=? off then Some i else acc)).
+    destruct (find_slot t off (S i) (if s_start s <=? off then Some i else acc)) as [j|].
+    + destruct IH as [[E F]|(pre & s' & post & E1 & E2 & E3)].
+      * destruct (N.leb_spec (s_start s) off).
+        -- injection E as <-. right. exists [], s, t. cbn. repeat split; auto; lia.
+        -- left. split; [exact E|constructor; [lia|exact F]].
+      * right. exists (s :: pre), s', post. subst t. cbn [app length]. repeat split; auto; lia.
+    + destruct IH as [E F]. destruct (N.leb_spec (s_start s) off); [discriminate|]. split; [exact E|constructor; [lia|exact F]].
+Qed.
+
+Lemma li_unshift : forall fo mr so sl0 r0 rend pre c post r, LI fo mr so sl0 r0 rend (pre ++ [c]) post r ->
+  LI fo mr so sl0 r0 rend pre (c :: post) r /\ (r_len r = 0 \/ s_start c <= r_off r).
+Proof.
+  intros fo mr so sl0 r0 rend pre c post r [Lpre Lpost Lrok Lend Lmr Lfo Lpos Lrd Lci].
+  apply chain_pre_app in Lpre. destruct Lpre as [Lp1 Lp2]. cbn [chain_pre] in Lp2. destruct Lp2 as [Hc _].
+  rewrite endP_app, endlo_app in Lpost. cbn [endP endlo] in Lpost. rewrite endlo_app in Lpos. cbn [endlo] in Lpos.
+  pose proof Hc as (A1 & A2 & _).
+  split; [|destruct Lpos; [left; assumption|right; lia]].
+  constructor; auto.
+  - cbn [chain]. split; assumption.
+  - destruct Lpos; [left; assumption|right; lia].
+  - rewrite <- app_assoc in Lci. exact Lci.
+Qed.
+
+Lemma write_reader_at_ok : forall st sl0 r0 pre s post r sl' o,
+  LI (final_off st) (max_recv st) (start_off st) sl0 r0 (r_off r0 + r_len r0) pre (s :: post) r ->
+  reader_ok r0 -> r_len r = 0 \/ s_start s <= r_off r ->
+  write_reader_at st (pre ++ s :: post) r (length pre) = (sl', o) ->
+  o = false /\ chain (final_off st) (max_recv st) (start_off st) True (start_off st) sl'
+  /\ (forall p, slots_get sl' p = wspec sl0 r0 p).
+Proof.
+  intros st sl0 r0 pre s post r sl' o Hli Hr0 Hs H. unfold write_reader_at in H.
+  destruct (write_loop (loop_fuel (pre ++ s :: post) r) st (pre ++ s :: post) r (length pre) false)
+    as [[[sl1 idx1] filled] o1] eqn:Ewl.
+  assert (Hhd : r_len r = 0 \/ exists s0 post'0, s :: post = s0 :: post'0 /\ s_start s0 <= r_off r).
+  { destruct Hs; [left; assumption|right; eauto]. }
+  assert (Hfl : r_len r = 0 \/ (N.to_nat (r_len r) + length (s :: post) <= loop_fuel (pre ++ s :: post) r)%nat).
+  { right. unfold loop_fuel. rewrite app_length. cbn [length]. lia. }
+  destruct (write_loop_ok (final_off st) (max_recv st) (start_off st) st eq_refl eq_refl sl0 r0 (r_off r0 + r_len r0)
+              _ _ _ _ _ _ _ _ _ Hli Hhd Hfl Ewl) as (Ho & pre' & post' & r' & E1 & E2 & Hli' & Hz).
+  edestruct (li_final (final_off st) (max_recv st) (start_off st) st eq_refl eq_refl) as [Hch Hcont]; [exact Hli'|exact Hz|exact Hr0|reflexivity|].
+  subst sl1 o1. destruct filled; injection H as <- <-.
+  - destruct (unsplit_range_ok (idx1 - length pre) (pre' ++ post') (length pre) _ _ _ Hch) as [U1 U2].
+    split; [reflexivity|]. split; [exact U1|]. intros p. rewrite U2. apply Hcont.
+  - split; [reflexivity|]. split; [exact Hch|exact Hcont].
+Qed.
+
+Theorem write_ok : WriteOK.
+Proof.
+  intros st r sl' o Hinv Hrok Hpos Hmr Hfo H. destruct Hinv as (Hc & I2 & I3 & I4 & I5).
+  unfold write_reader_impl in H. unfold r_empty in H.
+  destruct (N.eqb_spec (r_len r) 0) as [Hz|Hz].
+  { injection H as <- <-. split; [reflexivity|]. split; [exact Hc|]. intros p. unfold wspec.
+    destruct (slots_get (slots st) p); [reflexivity|]. unfold rd_get. destruct (r_off r <=? p); [|reflexivity].
+    symmetry. apply nth_error_None. unfold reader_ok in Hrok. rewrite nlen_length in Hrok. lia. }
+  destruct Hpos as [?|Hpos]; [contradiction|].
+  (* the loop invariant at the start: nothing written yet *)
+  assert (Hci0 : CI (slots st) r (slots st) r).
+  { intros p. destruct (slots_get (slots st) p); [reflexivity|]. destruct (N.ltb_spec p (r_off r)); [|reflexivity].
+    unfold rd_get. destruct (N.leb_spec (r_off r) p); [lia|reflexivity]. }
+  pose proof (find_slot_spec (slots st) (r_off r) 0 None) as Hfs.
+  destruct (find_slot (slots st) (r_off r) 0 None) as [idx|].
+  - destruct Hfs as [[E _]|(pre & s & post & E1 & E2 & E3)]; [discriminate|]. cbn [Nat.add] in E2. subst idx.
+    rewrite E1 in H. rewrite E1 in Hc. pose proof Hc as Hc'. apply chain_app in Hc'. destruct Hc' as [Hp1 Hp2].
+    eapply write_reader_at_ok; [|exact Hrok|right; exact E3|rewrite <- E1; rewrite E1; exact H].
+    rewrite E1 in Hci0. constructor; auto; try lia.
+    right. cbn [chain] in Hp2. destruct Hp2 as [(A1 & _) _]. lia.
+  - destruct Hfs as [_ Hall].
+    assert (Hli0 : LI (final_off st) (max_recv st) (start_off st) (slots st) r (r_off r + r_len r) [] (slots st) r).
+    { constructor; auto; try lia; try exact I. cbn [endlo]. right; exact Hpos. }
+    destruct (alloc_step _ _ _ st eq_refl eq_refl _ _ _ [] (slots st) r Hli0 Hz) as (Hli1 & Ha1 & Ha2).
+    { destruct (slots st) as [|nx t]; [exact I|]. inversion Hall; assumption. }
+    destruct (try_write (allocate_slot st r) r) as [[[s1 r1] fo1] fl] eqn:Etw.
+    destruct (zip_step _ _ _ _ _ _ _ _ _ _ _ _ _ _ _ Hli1 Ha1 Etw) as (Hli2 & Hp2 & Hlen).
+    cbn [app] in Hli2.
+    destruct fo1 as [x|]; cbn [optl] in Hli2.
+    + destruct (N.eqb_spec (r_len r1) 0) as [Hz1|Hz1].
+      * injection H as <- <-. edestruct (li_final (final_off st) (max_recv st) (start_off st) st eq_refl eq_refl) as [Hch Hcont]; [exact Hli2|exact Hz1|exact Hrok|reflexivity|].
+        split; [reflexivity|]. split; [exact Hch|exact Hcont].
+      * change (s1 :: x :: slots st) with ([s1] ++ x :: slots st) in H. change 1%nat with (length [s1]) in H.
+        change [s1; x] with ([s1] ++ [x]) in Hli2. destruct (li_unshift _ _ _ _ _ _ _ _ _ _ Hli2) as [Hli3 Hs3].
+        eapply write_reader_at_ok; eauto.
+    + destruct (N.eqb_spec (r_len r1) 0) as [Hz1|Hz1].
+      * injection H as <- <-. edestruct (li_final (final_off st) (max_recv st) (start_off st) st eq_refl eq_refl) as [Hch Hcont]; [exact Hli2|exact Hz1|exact Hrok|reflexivity|].
+        split; [reflexivity|]. split; [exact Hch|exact Hcont].
+      * change (s1 :: slots st) with ([] ++ s1 :: slots st) in H. change 0%nat with (length (@nil slot)) in H.
+        change [s1] with ([] ++ [s1]) in Hli2. destruct (li_unshift _ _ _ _ _ _ _ _ _ _ Hli2) as [Hli3 Hs3].
+        eapply write_reader_at_ok; eauto.
 Qed.
